@@ -639,7 +639,106 @@ pub fn run_c11(ctx: &Ctx) -> ! {
             }
             run_case(st, "c11", &b, &eval);
         }
+        // ---- value sweeps: every value of the numeric fields a report prints
+        let mut idx = 0usize;
+        let sweep = |st: &mut Stats, _rng: &mut proptest::test_runner::TestRng, b: Vec<u8>| {
+            st.nontrivial_enum += 1;
+            run_case(st, "c11", &b, &eval);
+        };
+        // ground speed: all 1024 x 1024 component pairs, both ground-speed subtypes, signs random
+        for stype in [1u64, 2] {
+            for word in 0..(1u64 << 20) {
+                idx += 1;
+                if idx % WORKERS != w {
+                    continue;
+                }
+                let mut b = gen_frame_df(&mut rng, if word & 4 == 0 { 17 } else { 18 });
+                let mut me = gen_me(&mut rng, 19);
+                bits::set(&mut me, 6, 3, stype);
+                bits::set(&mut me, 15, 10, word >> 10);
+                bits::set(&mut me, 26, 10, word & 0x3ff);
+                if bits::get(&me, 38, 9) == 0 {
+                    bits::set(&mut me, 38, 9, 1 + (word % 511));
+                }
+                b[4..11].copy_from_slice(&me);
+                sweep(st, &mut rng, b);
+            }
+        }
+        st.class("sweep: ground speed components");
+        // vertical rate (2^11) and GNSS difference (2^8) under every velocity subtype; airspeed / heading words
+        for stype in 0..8u64 {
+            for code in 0..(1u64 << 11) {
+                idx += 1;
+                if idx % WORKERS != w {
+                    continue;
+                }
+                let mut b = gen_frame_df(&mut rng, 17);
+                let mut me = gen_me(&mut rng, 19);
+                bits::set(&mut me, 6, 3, stype);
+                bits::set(&mut me, 36, 11, code);
+                if matches!(stype, 1 | 2) {
+                    let (e, n) = (1 + rng.below(1023), 1 + rng.below(1023));
+                    bits::set(&mut me, 15, 10, e);
+                    bits::set(&mut me, 26, 10, n);
+                }
+                b[4..11].copy_from_slice(&me);
+                sweep(st, &mut rng, b);
+                let mut b2 = gen_frame_df(&mut rng, 18);
+                let mut me2 = gen_me(&mut rng, 19);
+                bits::set(&mut me2, 6, 3, stype);
+                bits::set(&mut me2, 49, 8, code & 0xff);
+                bits::set(&mut me2, 14, 11, code);
+                b2[4..11].copy_from_slice(&me2);
+                sweep(st, &mut rng, b2);
+            }
+        }
+        st.class("sweep: rates, GNSS difference, heading words");
+        // altitude codes (13 bit under DF0/4/16/20, 12 bit under every position type code) and identity codes
+        for code in 0..8192u64 {
+            idx += 1;
+            if idx % WORKERS != w {
+                continue;
+            }
+            for df in [0u8, 4, 16, 20, 5, 21] {
+                let mut b = gen_frame_df(&mut rng, df);
+                bits::set(&mut b, 20, 13, code);
+                sweep(st, &mut rng, b);
+            }
+            if code < 4096 {
+                for tc in (9u8..=18).chain(20..=22) {
+                    let mut b = gen_frame_df(&mut rng, if code & 1 == 0 { 17 } else { 18 });
+                    let mut me = gen_me(&mut rng, tc);
+                    bits::set(&mut me, 9, 12, code);
+                    b[4..11].copy_from_slice(&me);
+                    sweep(st, &mut rng, b);
+                }
+            }
+            // type 28 identity code, type 29 selected altitude / QNH / heading words
+            let mut b = gen_frame_df(&mut rng, 17);
+            let mut me = gen_me(&mut rng, 28);
+            bits::set(&mut me, 12, 13, code);
+            b[4..11].copy_from_slice(&me);
+            sweep(st, &mut rng, b);
+            if code < 2048 {
+                let mut b = gen_frame_df(&mut rng, 17);
+                let mut me = gen_me(&mut rng, 29);
+                bits::set(&mut me, 6, 2, 1);
+                bits::set(&mut me, 10, 11, code);
+                b[4..11].copy_from_slice(&me);
+                sweep(st, &mut rng, b.clone());
+                let mut me = gen_me(&mut rng, 29);
+                bits::set(&mut me, 6, 2, 1);
+                bits::set(&mut me, 21, 9, code & 0x1ff);
+                bits::set(&mut me, 30, 10, code & 0x3ff);
+                b[4..11].copy_from_slice(&me);
+                sweep(st, &mut rng, b);
+            }
+        }
+        st.class("sweep: altitude and identity codes, target state words");
     });
+    st.exhaustive.push("every pair of velocity components (1024 x 1024) under both ground-speed subtypes".into());
+    st.exhaustive.push("every vertical-rate word (2^11), GNSS difference (2^8) and heading/airspeed word under every type-19 subtype".into());
+    st.exhaustive.push("every 13-bit altitude / identity code under DF0/4/5/16/20/21, every 12-bit altitude code under every position type code, every type-28 identity code, every type-29 selected altitude / QNH / heading word".into());
     st.merge(pre);
     let mut vac = vec![];
     for must in ["df0", "df4", "df5", "df11", "df16", "df17", "df18", "df19", "df20", "df21", "df24+", "me:ident", "me:surface", "me:airborne_baro", "me:airborne_gnss", "me:vel_gs", "me:vel_as", "me:vel_rsv", "me:status", "me:tss", "me:ops_air", "me:ops_surf", "me:ops_rsv", "me:noposition", "me:reserved", "me:surface_system", "me:coordination", "calc:some", "calc:none", "alt>0", "alt=0", "alt:some", "alt:none", "tss:heading", "tss:noheading", "tss:noacas", "lw:shown", "lw:hidden", "hrd:magnetic", "hrd:true", "baro_rate:shown", "baro_rate:hidden", "bds:empty", "bds:ident", "bds:dlc", "bds:unknown", "om:sda", "om:tcas"] {
